@@ -261,6 +261,29 @@ def run(ctx):
             res.bad(key, "%s no longer sets in_loop" % bid, b.where())
     for bid in LOOP_CREATORS:
         res.anchor(bid in writes, "%s sets in_loop" % bid)
+    # only the loop BODY is created while in_loop is true: the condition / the iterator expression of the loop is evaluated
+    # outside the loop the construct generates, so a break / continue written there must be rejected
+    CREATE = ("instruction::InstructionWithStr::new", "instruction::InstructionWithStr::new_expression", "instruction::Instruction::new")
+    # (`while` / `while x: T = e` evaluate their condition inside the loop they generate, so a break written there is caught by
+    # that loop; `for` evaluates its iterator expression before the loop)
+    for bid in sorted(x for x in LOOP_CREATORS if x.endswith("r#for::create_instruction") or x.endswith("Loop::create_instruction")):
+        b = lib.body(bid)
+        if b is None or bid not in writes:
+            continue
+        sets = [i for i, s in writes[bid] if s["rv"]["k"] == "use" and s["rv"]["o"].get("k") == "const" and s["rv"]["o"].get("val") == "true"]
+        if not sets:
+            continue
+        after = set()
+        for i in sets:
+            after |= b.reachable_after(i) | {i}
+        created = [c for c in b.calls if c.callee in CREATE and c.bb in after]
+        key = "in_loop:body-only:" + bid
+        if len(created) == 1:
+            res.ok(key, b.where(created[0].line), "exactly the body is created with in_loop = true")
+        else:
+            res.bad(key, "%s creates %d sub-programs after setting in_loop = true; only the loop body belongs inside the loop - a `break` / "
+                         "`continue` in the condition or iterator expression would be accepted and then escapes at run time" % (bid, len(created)),
+                    b.where(created[0].line if created else None))
     # fresh scopes
     for b in lib.bodies.values():
         for _, s in aggregates(b, LV):
